@@ -2912,7 +2912,11 @@ class FuncParseDate(ValueFunc):
                 idx = fmt.find(part)
                 if idx == -1:
                     continue
-                vals[part] = int(s[idx:idx+len(part)])
+                try:
+                    vals[part] = int(s[idx:idx+len(part)])
+                except ValueError:
+                    fmt = "-"  # not a number: this format does not match
+                    break
                 s = s[0:idx] + s[idx+len(part):]
                 fmt = fmt[0:idx] + fmt[idx+len(part):]
                 if s == "":
